@@ -143,6 +143,25 @@ func runRace1(bin, menu string, universe, ng, rounds, only int) (out string, cod
 	return buf.String(), 0, nil
 }
 
+// libraryCrash: the process died of a panic raised inside the library (first frame of the panicking goroutine is library
+// code), or of the runtime's own detection of unsynchronised map access. A panic in harness code is not one.
+func libraryCrash(out string) bool {
+	if strings.Contains(out, "fatal error: concurrent map") {
+		return true
+	}
+	i := strings.Index(out, "\npanic: ")
+	if i < 0 {
+		return false
+	}
+	rest := out[i:]
+	j := strings.Index(rest, "[running]:")
+	if j < 0 {
+		return false
+	}
+	lines := strings.SplitN(rest[j:], "\n", 3)
+	return len(lines) >= 2 && strings.Contains(lines[1], "github.com/sahandsafizadeh/qeep/")
+}
+
 func init() {
 	register("C20", "model_checking", func(c *run.Ctx) error {
 		c.Rule = "TLC explores every Begin/End interleaving of 2 (thorough: also 3 and 4) goroutines, each running any program of the menu (8 programs; the first 6 with 4 goroutines: forward chains over every operation family, activation and loss evaluation and graph construction on a shared TRACKED parameter and a shared UNTRACKED tensor; private graphs over the shared untracked tensor that are back-propagated, reset and re-used; random constructors) and checks NoRace (no in-flight write meets another in-flight read or write), Deterministic (every goroutine's tensors end as in its sequential run) and SharedUntouched; with the proviso switched off and a program that back-propagates through the shared parameter TLC must find the race (non-vacuity). Binding: (i) every program is run alone and the set of pre-existing tensors each call changes (values bit-for-bit, flags, gradient) must lie inside the specification's write footprint; (ii) every assignment of programs to goroutines is executed with real goroutines in a binary built with Go's race detector, many rounds, and each goroutine's results must equal the sequential ones bit-for-bit; distinct = distinct (assignment, round)"
@@ -236,11 +255,15 @@ func init() {
 				return run.Brokenf("race runner: %v", err)
 			}
 			race := strings.Contains(out, "DATA RACE") || code == 66
-			if race || code == 3 {
+			crash := libraryCrash(out)
+			if race || code == 3 || crash {
 				// reproduce before it counts
 				out2, code2, _ := runRace(bin, filepath.Join(c.Work, "menu.json"), universe, pl[0], pl[1], len(m.Menu))
-				if strings.Contains(out2, "DATA RACE") || code2 == 66 || code2 == 3 {
+				if strings.Contains(out2, "DATA RACE") || code2 == 66 || code2 == 3 || libraryCrash(out2) {
 					what := "results differ from the sequential run"
+					if crash {
+						what = "the library panics in the concurrent phase (the sequential run of the same programs does not)"
+					}
 					if race {
 						what = "the race detector reports a data race"
 					}
